@@ -33,18 +33,18 @@ import (
 )
 
 type nodeStats struct {
-	Ops, Genuine, Mutated, Accepted, Rejected, Panics, Execs                                               int
-	Duplicates                                                                                             int
-	DuplicateHist                                                                                          map[string]int
-	MutationHist                                                                                           map[string]int
-	OutcomeHist                                                                                            map[string]int
-	Monitors                                                                                               []string
-	Samples                                                                                                []string
-	Notes                                                                                                  []string
-	Scenarios                                                                                              int
-	C08Compared, C08Resets, TwoRoundScenarios, C08InDealsWindow, ReinitProbes, Reinits                     int
-	CancelledRounds                                                                                        int
-	C08Late, C08StampsMoved, PrefilledResults, JSONVariants, KeylessReinits, ReinitVariants, ForgedOwnName int
+	Ops, Genuine, Mutated, Accepted, Rejected, Panics, Execs                                                              int
+	Duplicates                                                                                                            int
+	DuplicateHist                                                                                                         map[string]int
+	MutationHist                                                                                                          map[string]int
+	OutcomeHist                                                                                                           map[string]int
+	Monitors                                                                                                              []string
+	Samples                                                                                                               []string
+	Notes                                                                                                                 []string
+	Scenarios                                                                                                             int
+	C08Compared, C08Resets, TwoRoundScenarios, C08InDealsWindow, ReinitProbes, Reinits                                    int
+	CancelledRounds                                                                                                       int
+	C08Late, C08StampsMoved, PrefilledResults, JSONVariants, KeylessReinits, ReinitVariants, ForgedOwnName, CollectedHere int
 }
 
 func tsTok(t time.Time) string {
@@ -460,6 +460,14 @@ func (r *nodeRun) feedOp(c *cluster, n *vnode, m storage.Message, kind, opName s
 	}
 	toks = append(toks, reconTok...)
 	after := nodeRender(n)
+	// C06: the batch this message completed was reconstructed and announced by this node: its round is idle again, ready
+	// for the next proposal
+	if len(reconTok) > 0 && outcome == "ok" {
+		r.st.CollectedHere++
+		if st := c.roundState(n, m.DkgRoundID); st != "stage_signing_idle" {
+			r.mon(fmt.Sprintf("C06 returns_to_idle: after the %s from %s that completed a batch (reconstructed and announced by this node) the stored round is in %s", m.Event, m.SenderAddr, st))
+		}
+	}
 	r.emit(strings.Join(toks, " "), outcome+" sent=("+strings.Join(sent, ";")+") "+after)
 	histKind := kind
 	if strings.HasPrefix(histKind, "mut:json-") {
@@ -556,6 +564,15 @@ func (r *nodeRun) mutate(c *cluster, obs *vnode, m storage.Message, otherRound s
 			x = clone()
 			x.SenderAddr = other.name // claims another participant, signature by the original sender
 			add("sender-renamed", "C09", x, true)
+			// the sender's own name in another spelling (capitals, a blank after it), the genuine signature: nothing is
+			// registered under THAT name
+			for k, alt := range []string{strings.ToUpper(m.SenderAddr), m.SenderAddr + " ", " " + m.SenderAddr, strings.Title(m.SenderAddr)} {
+				if alt != m.SenderAddr {
+					x = clone()
+					x.SenderAddr = alt
+					add([]string{"sender-uppercase", "sender-trailing-blank", "sender-leading-blank", "sender-capitalised"}[k], "C09", x, true)
+				}
+			}
 			x = clone()
 			x.Signature = ed25519.Sign(other.kp.Priv, x.Data) // claimed sender unchanged, signed with another participant's key
 			add("resigned-other-key", "C09", x, true)
